@@ -141,6 +141,7 @@ func (x *Exec) callEnv(st *State, callee *ssa.Function, args []Value) *CEnv {
 			env.vars[p.Name()] = args[i]
 		}
 	}
+	x.W.aliasOld(callee, env.vars)
 	return env
 }
 
@@ -205,6 +206,7 @@ func (x *Exec) callContract(st *State, fr *Frame, in ssa.Instruction, callee *ss
 	post := &CEnv{x: x, st: st, old: pre, vars: env.vars, pkg: env.pkg}
 	post = post.clone()
 	bindResults(post, callee, res)
+	x.W.aliasOld(callee, post.vars)
 	// the enumeration order of a map range inside the callee is some permutation unknown to the caller
 	post.vars["rangeord"] = Fresh("ord."+callee.Name(), SArr(SInt, SInt))
 	for _, b := range spec.Behaviors {
